@@ -59,8 +59,30 @@ func Harness_C15_server() {
 	srv := New(es)
 	srv.AddTransport(transport.GET{})
 	srv.AddTransport(transport.POST{})
-	srv.Use(extension.AutomaticPersistedQuery{Cache: store})
-	switch zzsym.Choice("doccache", 3) {
+	// the registry: an unbounded map, or the LRU of graphql/handler/lru with room for 1 / 2 entries (so that histories evict);
+	// the model is then exact as well: least recently registered-or-resolved entry goes first
+	lruCap := []int{0, 1, 2}[zzsym.Choice("apqcache", 1+2*zzsym.Param("evict", 0))]
+	if lruCap == 0 {
+		srv.Use(extension.AutomaticPersistedQuery{Cache: store})
+	} else {
+		srv.Use(extension.AutomaticPersistedQuery{Cache: lru.New[string](lruCap)})
+	}
+	var order []string // hashes in the model, least recently used first (only tracked for the LRU registries)
+	touch := func(h string) {
+		for k, x := range order {
+			if x == h {
+				order = append(order[:k:k], order[k+1:]...)
+				break
+			}
+		}
+		order = append(order, h)
+	}
+	evict := zzsym.Param("evict", 0) == 1
+	dc := 0
+	if !evict {
+		dc = zzsym.Choice("doccache", 3)
+	}
+	switch dc {
 	case 1:
 		srv.SetQueryCache(graphql.MapCache[*ast.QueryDocument]{})
 	case 2:
@@ -69,7 +91,13 @@ func Harness_C15_server() {
 	model := map[string]string{}
 	n := zzsym.Param("hist", 2)
 	for step := 0; step < n; step++ {
-		kind := zzsym.Choice("kind", 10)
+		var kind int
+		if evict {
+			// the kinds that read or write the registry
+			kind = []int{1, 3, 4, 0, 2}[zzsym.Choice("kind", 5)]
+		} else {
+			kind = zzsym.Choice("kind", 10)
+		}
 		ti := zzsym.Choice("text", zzsym.Param("texts", len(c15Texts)))
 		text, other := c15Texts[ti], c15Texts[c15Other[ti]]
 		q, _ := json.Marshal(text)
@@ -87,6 +115,11 @@ func Harness_C15_server() {
 			post(`{"query":` + string(q) + `,"extensions":` + c15Ext(c15Sum(text)) + `}`)
 			wantExec = text
 			model[c15Sum(text)] = text
+			touch(c15Sum(text))
+			if lruCap > 0 && len(order) > lruCap {
+				delete(model, order[0])
+				order = order[1:]
+			}
 		case 2: // text + the other text's hash: rejected
 			post(`{"query":` + string(q) + `,"extensions":` + c15Ext(c15Sum(other)) + `}`)
 			wantErr = "provided APQ hash does not match query"
@@ -98,6 +131,7 @@ func Harness_C15_server() {
 			}
 			if t, ok := model[c15Sum(text)]; ok {
 				wantExec = t
+				touch(c15Sum(text))
 			} else {
 				wantErr = "PersistedQueryNotFound"
 			}
@@ -141,7 +175,7 @@ func Harness_C15_server() {
 			zzsym.Assert(len(es.execs) == before, "a rejected request executes nothing")
 			zzsym.Assert(strings.Contains(body, wantErr), "the rejection names its cause (PersistedQueryNotFound / hash mismatch)")
 		}
-		zzsym.Assert(len(store.m) == len(model), "only a text sent with its own hash registers an entry")
+		zzsym.Assert(lruCap > 0 || len(store.m) == len(model), "only a text sent with its own hash registers an entry")
 		for k, v := range store.m {
 			zzsym.Assert(c15Sum(v) == k && model[k] == v, "the store maps a hash only to the text with that SHA-256")
 		}
